@@ -384,7 +384,7 @@ func (en *Engine) verifyLemma(fc *FuncContract) (res *FuncResult) {
 	ctx := NewCtx()
 	top := &Top{en: en, ctx: ctx, fnKey: shortKey(fc.Key), names: map[string]int{}, cellT: map[int]types.Type{},
 		noteSet: map[string]bool{}, strObjs: map[string]Val{}, entryHeaps: map[string]Term{}, heapSorts: map[string]string{},
-		trusted: map[string]bool{}, props: fc.Props, closures: map[string]Val{}, epochHeaps: map[string]Term{}, epochMerge: map[int][]epochPart{}}
+		trusted: map[string]bool{}, hookSeen: map[string]bool{}, props: fc.Props, closures: map[string]Val{}, epochHeaps: map[string]Term{}, epochMerge: map[int][]epochPart{}}
 	ctx.Raw("sort:F64", "(declare-sort F64 0)")
 	ctx.Raw("f64zero", "(declare-fun f64zero () F64)")
 	top.alloc0 = ctx.Const("alloc0", SInt)
@@ -456,7 +456,7 @@ func (en *Engine) VerifyFunc(fc *FuncContract) (res *FuncResult) {
 	ctx := NewCtx()
 	top := &Top{en: en, ctx: ctx, fnKey: shortKey(fc.Key), names: map[string]int{}, cellT: map[int]types.Type{},
 		noteSet: map[string]bool{}, strObjs: map[string]Val{}, entryHeaps: map[string]Term{}, heapSorts: map[string]string{},
-		trusted: map[string]bool{}, props: fc.Props, closures: map[string]Val{}, epochHeaps: map[string]Term{}, epochMerge: map[int][]epochPart{}}
+		trusted: map[string]bool{}, hookSeen: map[string]bool{}, props: fc.Props, closures: map[string]Val{}, epochHeaps: map[string]Term{}, epochMerge: map[int][]epochPart{}}
 	ctx.Raw("sort:F64", "(declare-sort F64 0)")
 	ctx.Raw("f64zero", "(declare-fun f64zero () F64)")
 	top.alloc0 = ctx.Const("alloc0", SInt)
@@ -578,6 +578,31 @@ func (en *Engine) VerifyFunc(fc *FuncContract) (res *FuncResult) {
 			esc.st = fr.entry // targets denote locations of the entry state
 			tg := fr.resolveTargets(&esc, fc.Modifies)
 			fr.frameObligations(rst, pre, top.alloc0, tg, "frame", "", fn.Pos())
+		}
+	}
+	// a hook that matches no call of the function checks nothing: that is an obligation of its own
+	// ("the call the contract talks about is still there"), not a silent pass
+	if rst != nil {
+		hooks := map[string]bool{}
+		for name := range fc.CallSites {
+			hooks[name] = true
+		}
+		for _, gu := range fc.GhostUps {
+			if gu.OnCall != "" && !gu.Optional {
+				hooks[gu.OnCall] = true
+			}
+		}
+		var hn []string
+		for name := range hooks {
+			hn = append(hn, name)
+		}
+		sort.Strings(hn)
+		for _, name := range hn {
+			g := True
+			if !top.hookSeen[name] {
+				g = False
+			}
+			fr.oblige(fr.entry, "hook", name, g, &Clause{Kind: "hook", Text: "the function calls " + name + " (its contract constrains those calls)"}, fn.Pos())
 		}
 	}
 	res.Obls = top.obls
